@@ -62,7 +62,10 @@ RULE = ("cases = (kind in {periodic angle, periodic dihedral, plain angle, plain
         "(value compared with the float64 oracle / relation compared / index rows compared); distinct = distinct descriptors")
 WORKERS = {"quick": 8, "thorough": 16}
 BUDGET = {"quick": 60, "thorough": 900}
-FLOORS = {"quick": {"angle.value": 1, "dihedral.value": 1}}
+FLOORS = {"quick": {"angle.value": 12000, "dihedral.value": 10000, "angle.range": 46000, "dihedral.range": 80000,
+                    "ref.angle.value": 2200, "ref.dihedral.value": 1800, "plain.value": 56000, "opt-vs-ref": 11000,
+                    "reversal": 40000, "mirror": 28000, "lattice-shift": 10000, "periodic-truthy": 6000,
+                    "named.indices": 32000, "named.values": 34000, "named.consistency": 34000}}
 ASSUMPTIONS = [
     "the lattice is the one traj.unitcell_vectors reports (its relation to lengths/angles is C17's business)",
     "periodic bond vectors are judged only where the minimum image is unique by more than 4*delta and, for skewed cells, "
@@ -71,7 +74,7 @@ ASSUMPTIONS = [
     "residues are undecided (may be returned or not)",
 ]
 KINDS = ["ang", "dih", "ang", "dih", "plain_ang", "plain_dih", "named"]
-NCASES = {"quick": 2100, "thorough": 30000}
+NCASES = {"quick": 2100, "thorough": 24000}
 GEOS = ["random", "random", "random", "long", "collinear", "planar", "grid", "tiny"]
 DATA = "/repo/tests/data/"
 FILES_QUICK = ["1bpi.pdb", "2EQQ.pdb", "1vii.pdb", "native.pdb", "frame0.h5", "4OH9.pdb", "aaqaa-wat.pdb", "ala_ala_ala.pdb",
